@@ -1580,9 +1580,9 @@ func (e *CoreExtension) filterSlice(value interface{}, args ...interface{}) (int
 		if !hasLength {
 			// to the end
 		} else if length >= 0 {
-			end = start + length
-			if end > runeCount {
-				end = runeCount
+			end = runeCount
+			if length < runeCount-start {
+				end = start + length
 			}
 		} else {
 			// Negative length means count from the end
@@ -1614,9 +1614,9 @@ func (e *CoreExtension) filterSlice(value interface{}, args ...interface{}) (int
 		if !hasLength {
 			// to the end
 		} else if length >= 0 {
-			end = start + length
-			if end > count {
-				end = count
+			end = count
+			if length < count-start {
+				end = start + length
 			}
 		} else {
 			// Negative length means count from the end
@@ -1659,9 +1659,9 @@ func (e *CoreExtension) filterSlice(value interface{}, args ...interface{}) (int
 		if !hasLength {
 			// to the end
 		} else if length >= 0 {
-			end = start + length
-			if end > runeCount {
-				end = runeCount
+			end = runeCount
+			if length < runeCount-start {
+				end = start + length
 			}
 		} else {
 			// Negative length means count from the end
@@ -1693,9 +1693,9 @@ func (e *CoreExtension) filterSlice(value interface{}, args ...interface{}) (int
 		if !hasLength {
 			// to the end
 		} else if length >= 0 {
-			end = start + length
-			if end > count {
-				end = count
+			end = count
+			if length < count-start {
+				end = start + length
 			}
 		} else {
 			// Negative length means count from the end
